@@ -98,16 +98,16 @@ Section Model.
         end
     end.
 
-  (* slice key: Some members' = SequenceValue.make_or_known(typ, members[key]);
-     None = "GenericValue(typ, args)" (no attempt for unpacked members) *)
+  (* slice key: SMembers = SequenceValue.make_or_known(typ, members[key]);
+     SGeneric = "GenericValue(typ, args)": no attempt for unpacked members, and the
+     fallback when members[key] raises ValueError (step 0) *)
   Inductive slice_result :=
   | SMembers (l : list T)
-  | SGeneric
-  | SCrash.                (* members[slice] raises ValueError inside the checker *)
+  | SGeneric.              (* GenericValue(typ, args): unpacked members, or a step of 0 (ValueError at run time) *)
 
   Definition seq_getitem_slice (ms : members) (s : pyslice) : slice_result :=
     match member_sequence ms with
-    | Some l => match py_slice l s with Some r => SMembers r | None => SCrash end
+    | Some l => match py_slice l s with Some r => SMembers r | None => SGeneric end
     | None => SGeneric
     end.
 
